@@ -208,8 +208,15 @@ def find_impls(src, masked, ty, trait=None):
     for m in re.finditer(r'\bimpl\b', masked):
         if dm[m.start()] != 0:
             continue
-        j = first_body_brace(masked, m.start(), len(masked))
+        try:
+            j = first_body_brace(masked, m.start(), len(masked))
+        except LostAnchor:
+            continue
         if masked[j] != '{':
+            continue
+        # `impl Trait` in a signature (argument or return position) is not an impl block
+        line_start = masked.rfind('\n', 0, m.start()) + 1
+        if masked[line_start:m.start()].strip() not in ('', 'unsafe', 'pub', 'default'):
             continue
         header = ' '.join(src[m.start():j].split())
         h = re.sub(r'^impl\s*(<[^>]*>)?\s*', '', header)
